@@ -69,6 +69,10 @@ def whereNZAux : Nat → List Int → List Int
   | i, m :: ms => if m != 0 then (i : Int) :: whereNZAux (i + 1) ms else whereNZAux (i + 1) ms
 def whereNZ (mask : List Int) : List Int := whereNZAux 0 mask
 
+/-- elementwise `a + b`, `a - b` of equally long arrays (the translator flags different lengths) -/
+def vadd (a b : List Int) : List Int := List.zipWith (· + ·) a b
+def vsub (a b : List Int) : List Int := List.zipWith (· - ·) a b
+
 /-- truthiness of an integer (`while possible_steps:`) -/
 def truthy (x : Int) : Bool := x != 0
 
